@@ -742,6 +742,69 @@ def stagedIds : List DOp → List Nat
   | .stage id _ :: os => id :: stagedIds os
   | _ :: os => stagedIds os
 
+/-! ## 18. the writer stack: cache.ResponseWriter over edns.ResponseWriter over the base writer -/
+
+/-- the per-request facts of `edns.ResponseWriter` the wire path consults -/
+structure EdnsCfg where
+  doBit : Bool
+  noedns : Bool
+  udp : Bool
+  size : Nat
+deriving DecidableEq, Repr
+
+/-- what a byte-path body looks like to the edns layer -/
+structure WireBody where
+  len : Nat
+  hasDNSSEC : Bool := false
+  headerOK : Bool := true
+  optOK : Bool := true      -- appendWireOPT can encode this client's OPT
+  optLen : Nat := 11
+deriving DecidableEq, Repr
+
+/-- `edns.ResponseWriter.WriteWire`: `none` = ErrWireFallback, returned BEFORE
+any byte is handed on; `some n` = the body (now `n` bytes, OPT appended) is
+forwarded to the next writer's WriteWire — once. -/
+def ednsWireForward (c : EdnsCfg) (b : WireBody) : Option Nat :=
+  if b.len < 12 then none
+  else if !c.doBit && b.hasDNSSEC then none
+  else if c.noedns then (if c.udp && b.len > c.size then none else some b.len)
+  else if !b.headerOK then none
+  else if !b.optOK then none
+  else if c.udp && b.len + b.optLen > c.size then none
+  else some (b.len + b.optLen)
+
+/-- a call on the TOP of the writer stack -/
+inductive SCall
+  | writeMsg (packable terr : Bool)
+  | writeWire (b : WireBody) (terr : Bool)
+  | commitWire (b : WireBody) (terr : Bool)
+deriving DecidableEq, Repr
+
+inductive SRet
+  | base (r : Ret)   -- what the base writer returned
+  | fallback         -- middleware.ErrWireFallback
+  | notWire          -- the top writer offers no byte path (cache.ResponseWriter)
+deriving DecidableEq, Repr
+
+/-- cache.ResponseWriter.WriteMsg and edns.ResponseWriter.WriteMsg each shape
+the message and hand it to the writer below exactly once (edns attaches an OPT
+unless EDNS is off, which is what lets the pooled packer carry an extended
+rcode); edns.WriteWire / CommitWire forward once or fall back before writing;
+the cache wrapper has no byte path. -/
+def stackCall (cacheLayer : Bool) (c : EdnsCfg) (w : Writer) : SCall → Writer × SRet
+  | .writeMsg packable terr =>
+    let r := w.call (.writeMsg (packable || !c.noedns) terr)
+    (r.1, .base r.2)
+  | .writeWire b terr | .commitWire b terr =>
+    if cacheLayer then (w, .notWire)
+    else match ednsWireForward c b with
+      | none => (w, .fallback)
+      | some _ => let r := w.call (.writeWire terr); (r.1, .base r.2)
+
+def stackRun (cacheLayer : Bool) (c : EdnsCfg) (w : Writer) : List SCall → Writer
+  | [] => w
+  | x :: xs => stackRun cacheLayer c (stackCall cacheLayer c w x).1 xs
+
 /-- no write on the connection ever fails and no reply exceeds dns.MaxMsgSize -/
 def noBreak : List DOp → Bool
   | [] => true
